@@ -260,6 +260,12 @@ func (e *Engine) callMod(f *ssa.Function, cc *ssa.CallCommon) (exist []string, f
 		return
 	}
 	ex := e.externMod(callee, cc)
+	if n := externName(callee); strings.HasSuffix(n, "maps.Keys") {
+		if st, ok := types.Unalias(callee.Signature.Results().At(0).Type()).Underlying().(*types.Slice); ok {
+			hn, _ := e.Model.SliceHeap(st.Elem())
+			return nil, append(fresh, hn)
+		}
+	}
 	if n := externName(callee); n == "strings.Split" || n == "strings.SplitN" {
 		// allocates a fresh []string only
 		return nil, append(fresh, ex...)
